@@ -2032,7 +2032,8 @@ EGLPNUM_TYPENAME_QSLIB_INTERFACE int EGLPNUM_TYPENAME_QSwrite_basis (
 
 CLEANUP:
 
-	EGLPNUM_TYPENAME_ILLlp_basis_free (basis);
+	/* only the converted copy is ours; 'basis' may be the problem's own basis */
+	EGLPNUM_TYPENAME_ILLlp_basis_free (&iB);
 	EG_RETURN (rval);
 }
 
